@@ -7,6 +7,7 @@ M4  running-balance monitor (at most one add per row context and rowid)
 M6  exception classification
 """
 import collections
+import itertools
 import threading
 
 from .values import conforms
@@ -262,7 +263,8 @@ def _install_balance_monitor(query_env):
             ctx = getattr(self, '_bqv_ctx', None)
             if ctx is not None:
                 mon.balance_events += 1
-                key = (id(ctx), ctx.rowid)
+                # a serial number given to the row context at creation: id() values are re-used after a scan is over
+                key = (getattr(ctx, '_bqv_serial', id(ctx)), ctx.rowid)
                 mon.balance_adds[key] += 1
                 if mon.balance_adds[key] > 1:
                     mon.balance_violations.append(
@@ -274,9 +276,12 @@ def _install_balance_monitor(query_env):
 
     orig_init = query_env.Row.__init__
 
+    serial = itertools.count(1)
+
     def __init__(self, entries, options):
         orig_init(self, entries, options)
         try:
+            self._bqv_serial = next(serial)
             inv = WatchedInventory()
             inv._bqv_ctx = self
             self.balance = inv
